@@ -20,7 +20,7 @@ static const P PARAMS[8] = {{"/vol", 'i', 0, 127, false, 0}, {"/pan", 'i', -64, 
                             {"/q", 'f', 0.1, 15.2, false, 0}, {"/neg", 'f', -1, 1, false, 0}, {"/lg", 'f', 0, 100, true, 0.01}, {"/en", 'T', 0, 1, false, 0}};
 
 struct Op {
-  int kind = 0;  // 0 createBinding 1 clearSlot 2 clearSlotSub 3 gain/offset+updateMapping 4 setSlot 5 handleMidi CC 6 NRPN sequence
+  int kind = 0;  // 0 createBinding 1 clearSlot 2 clearSlotSub 3 gain/offset+updateMapping 4 setSlot 5 handleMidi CC 6 NRPN sequence 7 setSlotSubPath
   int slot = 0, sub = 0, param = 0;
   bool learn = false;
   int gain = 100, offset = 0;   // in percent
@@ -41,6 +41,7 @@ struct Case {
         case 2: d += " clearSub(s" + std::to_string(o.slot) + "," + std::to_string(o.sub) + ")"; break;
         case 3: d += " map(s" + std::to_string(o.slot) + "," + std::to_string(o.sub) + ",gain=" + std::to_string(o.gain) + ",off=" + std::to_string(o.offset) + ")"; break;
         case 4: d += " set(s" + std::to_string(o.slot) + "," + std::to_string(o.v1000 / 1000.0) + ")"; break;
+        case 7: d += " path(s" + std::to_string(o.slot) + "," + std::to_string(o.sub) + "," + PARAMS[o.param].path + ")"; break;
         case 5: d += " cc(" + std::to_string(o.ch) + "," + std::to_string(o.cc) + "," + std::to_string(o.val) + ")"; break;
         default: d += " nrpn(" + std::to_string(o.hi) + "," + std::to_string(o.lo) + "=" + std::to_string(o.vhi) + "," + std::to_string(o.vlo) + ")"; break;
       }
@@ -62,7 +63,8 @@ Case vf_generate() {
     int k = vf::pickn(20);
     o.slot = vf::pickn(c.nslots);
     o.sub = vf::pickn(c.per);
-    if (k < 6) { o.kind = 0; o.param = vf::pickn(8); o.learn = vf::chance(60); }
+    if (k < 5) { o.kind = 0; o.param = vf::pickn(8); o.learn = vf::chance(60); }
+    else if (k < 6) { o.kind = 7; o.param = vf::pickn(8); }
     else if (k < 8) o.kind = 1;
     else if (k < 9) o.kind = 2;
     else if (k < 11) { o.kind = 3; o.gain = vf::oneof<int>({100, 50, 200, 10, -100, 100, 0}); o.offset = vf::oneof<int>({0, 0, 10, -10, 50, -50}); }
@@ -188,6 +190,22 @@ std::string vf_run(const Case &c, vf::Ctx &ctx) {
           if (o.learn && !waiting && s.cc == -1) queue.push_back(o.slot);
         }
         if (!out.empty()) return "createBinding emitted a message" + W;
+        break;
+      }
+      case 7: {
+        // binds a parameter at an explicit position, keeping that position's gain/offset; no learn request
+        mgr.setSlotSubPath(o.slot, o.sub, PARAMS[o.param].path);
+        MSlot &s = ms[(size_t)o.slot];
+        s.used = true;
+        MSub &sub = s.subs[(size_t)o.sub];
+        const P &p = PARAMS[o.param];
+        sub.used = true; sub.param = o.param;
+        sub.pmin = p.type == 'T' ? 0.f : (float)atof(std::to_string(p.mn).c_str());
+        sub.pmax = p.type == 'T' ? 1.f : (float)p.mx;
+        if (p.log) { sub.pmin = logf((float)p.logmin); sub.pmax = logf((float)p.mx); }
+        remap(sub);
+        if (!out.empty()) return "setSlotSubPath emitted a message" + W;
+        ctx.count("op.setSlotSubPath");
         break;
       }
       case 1: {
